@@ -978,6 +978,18 @@ class BaseComponent(object):
 
     # --------------------------------------------------------------------------
     #
+    def _canceled_on_intake(self, things):
+        '''
+        called for things which `work_cb` filtered out because they were
+        canceled.  Components which own resources of those things can overload
+        this method to release them.
+        '''
+
+        pass
+
+
+    # --------------------------------------------------------------------------
+    #
     def work_cb(self):
         '''
         This is the main routine of the component, as it runs in the component
@@ -1036,8 +1048,14 @@ class BaseComponent(object):
 
                     # filter out canceled things
                     if self._cancel_list:
-                        things = [x for x in things
-                                    if not self.is_canceled(x)]
+                        canceled = list()
+                        accepted = list()
+                        for x in things:
+                            if self.is_canceled(x): canceled.append(x)
+                            else                  : accepted.append(x)
+                        things = accepted
+                        if canceled:
+                            self._canceled_on_intake(canceled)
 
                   # self._log.debug('== got %d things (%s)', len(things), state)
                   # for thing in things:
